@@ -634,7 +634,7 @@ def gen_loop(seed: int, tier: str = "quick") -> Dict[str, Any]:
                 conns.append({"src": idx, "se": 0, "dst": m, "de": 0, "pairs": [[ua, "m_in"]], "shift": 0, "weak": False})
             else:
                 conns.append({"src": idx, "se": 0, "dst": m, "de": 0, "pairs": [[ua, "t_in"]], "shift": 1, "weak": False})
-    cfg = {"cache": rng.random() < 0.5, "lazy": rng.random() < 0.6, "debug": False, "mli": M,
+    cfg = {"cache": rng.random() < 0.5, "lazy": rng.random() < 0.6, "debug": rng.random() < 0.1, "mli": M,
            "start_seed": rng.choice([None, rng.randrange(1 << 30)]),
            "connect_seed": rng.choice([None, rng.randrange(1 << 30)]),
            "order_seed": rng.choice([None, rng.randrange(1 << 30)]),
